@@ -223,6 +223,7 @@ type BlockUtils struct {
 	AcceptNil bool
 	Vals    []ValCall
 	Reqs    []ReqCall
+	reqCount map[string]int
 	// Gates for E2 (blocking SPI): called with the context, may wait on it.
 	ReqGate func(ctx context.Context, h primitives.BlockHeight)
 	ValGate func(ctx context.Context, h primitives.BlockHeight)
@@ -236,7 +237,16 @@ func (b *BlockUtils) RequestNewBlockProposal(ctx context.Context, h primitives.B
 	if b.View != nil {
 		v = b.View()
 	}
-	x := &Block{h, fmt.Sprintf("P%s.%d.%d", string(b.Me), uint64(h), v)}
+	// every call yields a new block (as a real consumer's does): the tag carries the call count
+	tag := fmt.Sprintf("P%s.%d.%d", string(b.Me), uint64(h), v)
+	if n := b.reqCount[tag]; n > 0 {
+		tag = fmt.Sprintf("%s#%d", tag, n)
+	}
+	if b.reqCount == nil {
+		b.reqCount = map[string]int{}
+	}
+	b.reqCount[fmt.Sprintf("P%s.%d.%d", string(b.Me), uint64(h), v)]++
+	x := &Block{h, tag}
 	b.Reqs = append(b.Reqs, ReqCall{uint64(h), x.Tag, ctx.Err() != nil})
 	return x, HashOf(x)
 }
@@ -395,6 +405,26 @@ func (s *Store) GetCommitSendersIds(h primitives.BlockHeight, v primitives.View,
 	r := s.InMemoryStorage.GetCommitSendersIds(h, v, bh)
 	sort.Slice(r, func(i, j int) bool { return s.less(r[i], r[j]) })
 	return r
+}
+func (s *Store) GetPrepareMessagesFromView(h primitives.BlockHeight, v primitives.View) ([]*interfaces.PrepareMessage, bool) {
+	r, ok := s.InMemoryStorage.GetPrepareMessagesFromView(h, v)
+	sort.Slice(r, func(i, j int) bool {
+		if !bytes.Equal(r[i].SenderMemberId(), r[j].SenderMemberId()) {
+			return s.less(r[i].SenderMemberId(), r[j].SenderMemberId())
+		}
+		return bytes.Compare(r[i].Raw(), r[j].Raw()) < 0
+	})
+	return r, ok
+}
+func (s *Store) GetCommitMessagesFromView(h primitives.BlockHeight, v primitives.View) ([]*interfaces.CommitMessage, bool) {
+	r, ok := s.InMemoryStorage.GetCommitMessagesFromView(h, v)
+	sort.Slice(r, func(i, j int) bool {
+		if !bytes.Equal(r[i].SenderMemberId(), r[j].SenderMemberId()) {
+			return s.less(r[i].SenderMemberId(), r[j].SenderMemberId())
+		}
+		return bytes.Compare(r[i].Raw(), r[j].Raw()) < 0
+	})
+	return r, ok
 }
 func (s *Store) GetViewChangeMessages(h primitives.BlockHeight, v primitives.View) ([]*interfaces.ViewChangeMessage, bool) {
 	r, ok := s.InMemoryStorage.GetViewChangeMessages(h, v)
